@@ -21,6 +21,8 @@ type Case struct {
 	BareLF bool   `json:"bare_lf"` // body lines end in bare LF (both measures coincide)
 	Size   string `json:"size"`    // "", "true", "under", "over", "huge", "junk"; Pad zero-pads the number
 	Pad    int    `json:"pad,omitempty"`
+	// Debug: the server runs with network debugging on (the daemon's -netdebug flag)
+	Debug bool `json:"debug,omitempty"`
 	// Key is the spelling of the SIZE keyword ("" = SIZE): ESMTP parameter keywords are not case-sensitive
 	Key     string `json:"key,omitempty"`
 	Backend string `json:"backend"`
@@ -36,7 +38,7 @@ type Case struct {
 
 var prop = hx.Prop[Case]{
 	ID: pid, Name: "limit",
-	Rule: "limit M in 200..65536 (thorough: up to 1 MiB); message sizes concentrated at M-3..M+3, M/2, 2M, 10M, and M + 1..5 MiB; SIZE parameter (keyword in upper, lower or mixed case) absent, " +
+	Rule: "limit M in 200..65536 (thorough: up to 1 MiB); message sizes concentrated at M-3..M+3, M/2, 2M, 10M, and M + 1..5 MiB; server with and without network debugging (-netdebug); SIZE parameter (keyword in upper, lower or mixed case) absent, " +
 		"truthful, understated, overstated but <= M, > M, non-numeric; oracle with two size measures lo (after un-stuffing, CRLF->LF) and hi " +
 		"(bytes on the wire): SIZE > M -> refused at MAIL; lo > M -> refusal after the final dot and store unchanged; hi <= M -> 250 and " +
 		"stored; in between either; the follow-up small transaction on the same connection must succeed; non-trivial = lo > M without a " +
@@ -67,6 +69,7 @@ var prop = hx.Prop[Case]{
 		c.Size = rapid.SampledFrom([]string{"", "", "true", "under", "over", "huge", "junk"}).Draw(t, "size")
 		c.Pad = rapid.SampledFrom([]int{0, 0, 0, 7, 10, 12}).Draw(t, "pad") // RFC 1870: size-value = 1*20DIGIT, leading zeros are decimal digits
 		c.Key = rapid.SampledFrom([]string{"", "", "", "size", "Size", "sIzE"}).Draw(t, "key")
+		c.Debug = rapid.IntRange(0, 4).Draw(t, "debug") == 0 && c.Target < c.Limit+(1<<20) // (not for the multi-megabyte messages: the echo goes to the run's log)
 		c.Extra = rapid.SampledFrom([]string{"", "", "discard", "other"}).Draw(t, "extra")
 		c.Lead = rapid.SampledFrom([]int{0, 0, 0, 1, 2, 5}).Draw(t, "lead")
 		c.Follow = rapid.SampledFrom([]string{"", "", "body", "body", "size", "size+body", "rset+body"}).Draw(t, "follow")
@@ -104,6 +107,10 @@ func run(c Case) *hx.Outcome {
 	o := &hx.Outcome{}
 	cfg := hx.DefaultCfg()
 	cfg.Backend, cfg.MaxMessageBytes, cfg.NoHTTP = c.Backend, c.Limit, true
+	cfg.NetDebug = c.Debug
+	if c.Debug {
+		o.Class("server with network debugging on")
+	}
 	cfg.DiscardDomains = []string{"discard.test"}
 	w, err := hx.NewWorld(cfg)
 	if err != nil {
